@@ -361,15 +361,14 @@ func ruleC11(c *Ctx) {
 	})
 	if lk == nil {
 		c.undecided("SHAPE", "lookup(ToUpper(seq)[i])", av.Pos(), "no comma-ok table lookup keyed by the runes of strings.ToUpper(seq) found")
-		rawU := rawParamUses(tb, av, 0, "strings.ToUpper")
-		if len(rawU) > 0 {
-			c.bad("SHAPE", "DEPEND: raw input only under ToUpper", av.Pos(), "the raw (not upper-cased) input is consulted by "+strings.Join(rawU, ", ")+": lower-case codes are treated differently from upper-case ones")
+		if stRaw, whyRaw := judgeCase(c.W, av, 0); stRaw == broken {
+			c.bad("SHAPE", "DEPEND: raw input only under ToUpper", av.Pos(), whyRaw+": lower-case codes are treated differently from upper-case ones")
 		}
 		return
 	}
 	c.ok("SHAPE", "lookup(ToUpper(seq)[i])", lk.Pos(), "each rune of the upper-cased input is looked up (comma-ok) in the code table")
-	rawU := rawParamUses(tb, av, 0, "strings.ToUpper")
-	c.check(len(rawU) == 0, "SHAPE", "DEPEND: raw input only under ToUpper", av.Pos(), "letter case cannot influence the expansion", "the raw (not upper-cased) input is consulted by "+strings.Join(rawU, ", ")+": lower-case codes are treated differently from upper-case ones")
+	stRaw, whyRaw := judgeCase(c.W, av, 0)
+	c.judge(stRaw, "SHAPE", "DEPEND: raw input only under ToUpper", av.Pos(), "letter case cannot influence the expansion", whyRaw+": lower-case codes are treated differently from upper-case ones")
 	var tabI map[rune][]rune
 	var problems []string
 	if _, isMake := lk.X.(*ssa.MakeMap); isMake {
